@@ -568,7 +568,7 @@ class tzfile(_tzinfo):
         ttinfo = []
 
         for i in range(typecnt):
-            ttinfo.append(struct.unpack(">lbb", fileobj.read(6)))
+            ttinfo.append(struct.unpack(">lbB", fileobj.read(6)))
 
         abbr = fileobj.read(charcnt).decode()
 
